@@ -21,7 +21,7 @@ type VerifC18Listener struct {
 
 // VerifC18Service is one relay service of a Manager.
 type VerifC18Service struct {
-	Kind       string // tcp | udpnat | udpsession | udptransparent | other
+	Kind       string // tcp | udpnat | udpsession | other
 	ServerName string
 	MTU        int
 	Server     any // netio.StreamServer, zerocopy.UDPNATServer or zerocopy.UDPSessionServer
@@ -67,8 +67,6 @@ func VerifC18Services(m *Manager) []VerifC18Service {
 			out = append(out, VerifC18Service{Kind: "udpnat", ServerName: r.serverName, MTU: r.mtu, Server: r.server, Listeners: verifC18UDPListeners(r.listeners)})
 		case *UDPSessionRelay:
 			out = append(out, VerifC18Service{Kind: "udpsession", ServerName: r.serverName, MTU: r.mtu, Server: r.server, Listeners: verifC18UDPListeners(r.listeners)})
-		case *UDPTransparentRelay:
-			out = append(out, VerifC18Service{Kind: "udptransparent", ServerName: r.serverName, MTU: r.mtu, Listeners: verifC18UDPListeners(r.listeners)})
 		default:
 			out = append(out, VerifC18Service{Kind: "other"})
 		}
